@@ -88,6 +88,14 @@ func vChoose(name string, n int) int {
 	return v
 }
 
+func vPick(name string, lo, hi int) int {
+	v := int(int64(vNext(name)))
+	if v < lo || v > hi {
+		panic(vAssumeFail{})
+	}
+	return v
+}
+
 func vAssume(c bool) {
 	if !c {
 		panic(vAssumeFail{})
